@@ -24,7 +24,7 @@ ASSUMPTIONS = [
 ]
 CASES = {"quick": 400, "thorough": 20000}
 MIN_CASES = {"quick": 100, "thorough": 800}
-REQUIRED_COUNTERS = ["models_built", "equations_evaluated", "config:input", "config:legal_translate", "config:legal_slide", "config:legal_shrink_branch",
+REQUIRED_COUNTERS = ["models_built", "equations_evaluated", "config:illegal_branch_into_trunk", "config:input", "config:legal_translate", "config:legal_slide", "config:legal_shrink_branch",
                      "config:illegal_outside", "config:illegal_ratio", "config:illegal_area", "config:illegal_gap", "config:illegal_overhang", "config:illegal_same_side_overlap", "config:illegal_swapped_order",
                      "config:illegal_inter_overlap", "config:illegal_inter_overlap_shallow", "config:illegal_hard_reshaped", "config:illegal_hard_branch_offset", "config:illegal_fixed_moved",
                      "kind:soft", "kind:hard_multi", "kind:hard_single", "kind:fixed"]
@@ -278,6 +278,11 @@ def variations(case, rng):
         cfg = dict(base)
         cfg[(mod["name"], gi)] = (x + sg[0] * d, y + sg[1] * d, w, h)
         out.append(("illegal_gap", False, {"Attach"}, cfg))
+        # illegal: the branch pushed the other way, 30% of its depth INTO the trunk (attachment is an equality, not a bound)
+        d = 0.3 * (h if role in "NS" else w)
+        cfg = dict(base)
+        cfg[(mod["name"], gi)] = (x - sg[0] * d, y - sg[1] * d, w, h)
+        out.append(("illegal_branch_into_trunk", False, {"Attach", "Intra"}, cfg))
         # illegal: overhang beyond the trunk's extent (still abutting)
         cfg = dict(base)
         if role in "NS":
